@@ -92,6 +92,23 @@ Theorem C08_inplace_rerun :
 Proof. exact inplace_rerun. Qed.
 Print Assumptions C08_inplace_rerun.
 
+(* Null-chunk sections in an in-place run (nullseed.go copy path): zero-filling a section, clipped to the
+   section, makes its own range zeroes and leaves EVERY other indexed range as it was -- so a chunk that
+   follows a run of null chunks and is already in place stays in place and is not fetched again by
+   C08_inplace_rerun.  (Seeded mutant C08-9 wrote whole 32 KiB blocks past the section's end.) *)
+Theorem C08_null_section_is_clipped :
+  forall (idx : list row) (f0 : bytes),
+  (forall a b, In a idx -> In b idx -> a <> b ->
+     r_start a + r_size a <= r_start b \/ r_start b + r_size b <= r_start a) ->
+  (forall a, In a idx -> r_start a + r_size a <= length f0) ->
+  forall f r, length f = length f0 -> In r idx ->
+  length (write_null f r) = length f0 /\
+  slice (write_null f r) (r_start r) (r_size r) = repeat 0%N (r_size r) /\
+  (forall a, In a idx -> a <> r ->
+     slice (write_null f r) (r_start a) (r_size a) = slice f (r_start a) (r_size a)).
+Proof. exact write_null_spec. Qed.
+Print Assumptions C08_null_section_is_clipped.
+
 (* ---------- non-vacuity ---------- *)
 Definition ex_base : path := [[115]%N].
 Definition ex_wd (i : nat) : wdata :=
